@@ -18,6 +18,14 @@ CLAIMED = {
         ref="DESIGN.md section 2 / C01",
     ),
 }
+CLAIMED["C04"] = dict(
+    text="operators._split_diff_combine/_1d_diff and Field.diff are executed on symbolic data for every validity pattern of the "
+         "bounded line lengths / meshes (patterns forked by the explorer), both orders, open and periodic, restrict2valid on/off: "
+         "each maximal run carries an independent symbolic polynomial of the highest degree the statement promises to be exact, "
+         "invalid cells carry free symbols, so exactness, zero results, run isolation, line/component independence are one "
+         "unsat query per output cell; linearity with free alpha, beta; periodic rings against the wrap-around centred difference.",
+    ref="DESIGN.md section 2 / C04",
+)
 PENDING_REASON = "check not built yet in this round (planned: DESIGN.md section 2); not claimed until it runs green"
 NA = {}
 
